@@ -9,11 +9,18 @@ From Coq Require Import List ZArith Bool String.
 From IB Require Import Util.J Engine.Val Engine.Lang Engine.Denote Engine.Decode Engine.Canon.
 Import ListNotations.
 
+(* `header` (prepend a marker to every chunk) is chunk-sensitive: the list interpretation chunks
+   the WHOLE list, which is what a sequential run does; it is admitted in sequential cases only
+   (there the result must be exactly `denote`). Everything else must be element-wise. *)
+Definition c02_step (m : mode) (st : step) : bool :=
+  elementwise_step st ||
+  match st, m with SMapBatches _ BHeader, MSeq => true | _, _ => false end.
+
 Definition check_C02 (kind : string) (input output : J) : verdict :=
   if String.eqb kind "prog" then
     match dec_prog input, dec_obs output with
     | Some (s, steps, m), Some o =>
-        if forallb elementwise_step steps then
+        if forallb (c02_step m) steps then
           let agree := agree_model m s steps o in
           let prop := match o with
                       | OOk rows => rows_eqb rows (denote s steps)
